@@ -54,6 +54,10 @@ PAIRS = [
     ("morse 1.5 1.2 0.8", lambda: PFo.morse(1.5, 1.2, 0.8), "constant -0.3", lambda: PFo.constant(-0.3)),
     ("exponential 3 -2", lambda: PFo.exponential(3.0, -2.0), "hbnd 50 10", lambda: PFo.hbnd(50.0, 10.0)),
     ("polynomial 2 1", lambda: PFo.polynomial(2.0, 1.0), "sqrt 0.7", lambda: PFo.sqrt(0.7)),
+    # both ends non-positive, in either order of magnitude (the exponential spline shifts by the smaller of the two)
+    ("constant -3", lambda: PFo.constant(-3.0), "zero", lambda: PFo.zero()),
+    ("polynomial -0.5 -0.1", lambda: PFo.polynomial(-0.5, -0.1), "constant -4", lambda: PFo.constant(-4.0)),
+    ("coul 2 -2", lambda: PFo.coul(2.0, -2.0), "buck 0 1 32", lambda: PFo.buck(0.0, 1.0, 32.0)),
 ]
 
 
@@ -280,7 +284,7 @@ def main(prop, tier, seed):
                     continue
                 seen.add((clause, msg[:60]))
                 run.violation(dict(engine="splines", clause=clause), "[%s] %s" % (clause, msg), case)
-            run.rule = "cases = knot triples (TLC) x 7 start/end pairs of built-in forms x {buck4, exp} (defining equations, C2 continuity, regions) + identity family + construction routes; non-trivial = every (knots, pair); distinct by (knots, pair)"
+            run.rule = "cases = knot triples (TLC) x 10 start/end pairs of built-in forms x {buck4, exp} (defining equations, C2 continuity, regions) + identity family + construction routes; non-trivial = every (knots, pair); distinct by (knots, pair)"
     except tlc.TLCError as e:
         run.machinery(str(e))
     return run.finish()
